@@ -598,3 +598,144 @@ Example restore_example :
   moutcome desc_canonical w0 st3 (OScript [SDef "f" (F0 3 2)]) = Ok /\
   moutcome desc_canonical w0 st2 (OScript [SDef "f" (F0 4 2)]) = Conflict.
 Proof. vm_compute. repeat split; reflexivity. Qed.
+
+(* ================================================================ the explicit `Dangling` outcome never occurs *)
+(* globals are bound to object ids; objects are never freed in the model (shared Boxed_Value data is reference
+   counted in the code), so every id bound in the live environment or in a saved State is allocated *)
+Definition oids_ok (n : nat) (r : rest) : Prop := Forall (fun e => snd e < n) (r_globals r).
+Definition sstate_ok (st : sstate) : Prop :=
+  oids_ok (List.length (a_objs (s_amb st))) (e_rest (s_env st)) /\
+  Forall (fun e => oids_ok (List.length (a_objs (s_amb st))) (e_rest e)) (s_snaps st).
+
+Lemma set_nth_length {A : Type} n (x : A) l : List.length (set_nth n x l) = List.length l.
+Proof. revert n; induction l as [| y l IH]; intros [| n]; cbn; auto. Qed.
+
+Lemma oids_mono n m r : n <= m -> oids_ok n r -> oids_ok m r.
+Proof. intros H. unfold oids_ok. apply Forall_impl. intros e He. lia. Qed.
+
+Lemma lookup_in_snd {V : Type} k (v : V) l : lookup k l = Some v -> In v (map snd l).
+Proof. intros H. apply lookup_some_in in H. now apply (in_map snd) in H. Qed.
+
+Lemma gstep_ok r a s r' a' o :
+  oids_ok (List.length (a_objs a)) r -> gstep r a s = (r', a', o) ->
+  oids_ok (List.length (a_objs a')) r' /\ List.length (a_objs a) <= List.length (a_objs a') /\ o <> Dangling.
+Proof.
+  intros H.
+  assert (AO : forall oid v, In oid (map snd (r_globals r)) ->
+               forall r1 a1 o1, assign_obj oid v r a = (r1, a1, o1) ->
+               oids_ok (List.length (a_objs a1)) r1 /\ List.length (a_objs a) <= List.length (a_objs a1) /\ o1 <> Dangling).
+  { intros oid v Hin r1 a1 o1. unfold assign_obj.
+    assert (Lt : oid < List.length (a_objs a)).
+    { unfold oids_ok in H. rewrite Forall_forall in H. apply in_map_iff in Hin as ((k & x) & <- & Hx). apply (H _ Hx). }
+    destruct (nth_error (a_objs a) oid) as [[[] x] |] eqn:N.
+    - intros [= <- <- <-]. repeat split; auto; discriminate.
+    - intros [= <- <- <-]. cbn. rewrite set_nth_length. repeat split; auto; discriminate.
+    - apply nth_error_None in N. lia. }
+  assert (AL : forall n c v, oids_ok (List.length (a_objs (alloc_obj c v a))) (mkRest (r_globals r ++ [(n, List.length (a_objs a))]) (r_types r))).
+  { intros n c v. unfold oids_ok. cbn. rewrite app_length. cbn. apply Forall_app. split.
+    - revert H. apply Forall_impl. intros e He. lia.
+    - constructor; [cbn; lia | constructor]. }
+  destruct s as [n f | n v | n v | n v | n v | n ty]; cbn [gstep].
+  - intros [= <- <- <-]. repeat split; auto; discriminate.
+  - destruct (lookup n (r_globals r)) as [oid |] eqn:L.
+    + apply AO. eapply lookup_in_snd; eauto.
+    + intros [= <- <- <-]. split; [apply AL |]. cbn. rewrite app_length. cbn. split; [lia | discriminate].
+  - destruct (lookup n (r_globals r)) as [oid |] eqn:L.
+    + intros [= <- <- <-]. repeat split; auto; discriminate.
+    + intros [= <- <- <-]. split; [apply AL |]. cbn. rewrite app_length. cbn. split; [lia | discriminate].
+  - intros [= <- <- <-]. split; [| cbn; rewrite app_length; cbn; split; [lia | discriminate]].
+    unfold oids_ok. cbn. rewrite app_length. cbn. apply Forall_assign.
+    + revert H. apply Forall_impl. intros e He. lia.
+    + intros k'. cbn. lia.
+  - destruct (lookup n (r_globals r)) as [oid |] eqn:L.
+    + apply AO. eapply lookup_in_snd; eauto.
+    + intros [= <- <- <-]. repeat split; auto; discriminate.
+  - destruct (lookup (type_global n) (r_globals r)) as [oid |] eqn:L.
+    + intros [= <- <- <-]. repeat split; auto; discriminate.
+    + intros [= <- <- <-]. split; [| cbn; rewrite app_length; cbn; split; [lia | discriminate]].
+      exact (AL (type_global n) true ty).
+Qed.
+
+Lemma dict_add_outcome d n f : snd (dict_add d n f) <> Dangling.
+Proof. unfold dict_add. destruct (lookup n d); [destruct (existsb _ _) |]; cbn; discriminate. Qed.
+
+Lemma sop_ok d r a s d' r' a' o :
+  oids_ok (List.length (a_objs a)) r -> sop_step dict_add (d, r, a) s = ((d', r', a'), o) ->
+  oids_ok (List.length (a_objs a')) r' /\ List.length (a_objs a) <= List.length (a_objs a') /\ o <> Dangling.
+Proof.
+  intros H. destruct s as [n f | n v | n v | n v | n v | n ty]; cbn [sop_step].
+  - pose proof (dict_add_outcome d n f) as X. destruct (dict_add d n f) as [d1 o1]. intros [= <- <- <- <-]. auto.
+  - destruct (gstep r a (SGlobalDecl n v)) as [[r1 a1] o1] eqn:G. intros [= <- <- <- <-]. eapply gstep_ok; eauto.
+  - destruct (gstep r a (SAddGlobal n v)) as [[r1 a1] o1] eqn:G. intros [= <- <- <- <-]. eapply gstep_ok; eauto.
+  - destruct (gstep r a (SSetGlobal n v)) as [[r1 a1] o1] eqn:G. intros [= <- <- <- <-]. eapply gstep_ok; eauto.
+  - destruct (gstep r a (SAssign n v)) as [[r1 a1] o1] eqn:G. intros [= <- <- <- <-]. eapply gstep_ok; eauto.
+  - destruct (gstep r a (SAddType n ty)) as [[r1 a1] o1] eqn:G. intros [= <- <- <- <-]. eapply gstep_ok; eauto.
+Qed.
+
+Lemma script_ok l : forall d r a d' r' a' o,
+  oids_ok (List.length (a_objs a)) r -> run_script dict_add (d, r, a) l = ((d', r', a'), o) ->
+  oids_ok (List.length (a_objs a')) r' /\ List.length (a_objs a) <= List.length (a_objs a') /\ o <> Dangling.
+Proof.
+  induction l as [| s l IH]; intros d r a d' r' a' o H; cbn [run_script].
+  - intros [= <- <- <- <-]. repeat split; auto; discriminate.
+  - destruct (sop_step dict_add (d, r, a) s) as [[[d1 r1] a1] o1] eqn:E.
+    destruct (sop_ok _ _ _ _ _ _ _ _ H E) as (H1 & L1 & N1).
+    destruct (is_ok o1).
+    + intros R. destruct (IH _ _ _ _ _ _ _ H1 R) as (H2 & L2 & N2). repeat split; auto; lia.
+    + intros [= <- <- <- <-]. auto.
+Qed.
+
+Lemma module_ok l : forall d r a d' r' a',
+  oids_ok (List.length (a_objs a)) r -> run_module dict_add (d, r, a) l = (d', r', a') ->
+  oids_ok (List.length (a_objs a')) r' /\ List.length (a_objs a) <= List.length (a_objs a').
+Proof.
+  induction l as [| s l IH]; intros d r a d' r' a' H; cbn [run_module].
+  - intros [= <- <- <-]. auto.
+  - destruct (sop_step dict_add (d, r, a) s) as [[[d1 r1] a1] o1] eqn:E.
+    destruct (sop_ok _ _ _ _ _ _ _ _ H E) as (H1 & L1 & _). cbn [fst].
+    intros R. destruct (IH _ _ _ _ _ _ H1 R) as (H2 & L2). split; auto; lia.
+Qed.
+
+Lemma with_ok st d r a u m :
+  sstate_ok st -> oids_ok (List.length (a_objs a)) r -> List.length (a_objs (s_amb st)) <= List.length (a_objs a) ->
+  sstate_ok (s_with st (d, r, a) u m).
+Proof.
+  intros [_ S] H L. split; cbn; [exact H |]. revert S. apply Forall_impl. intros e. now apply oids_mono.
+Qed.
+
+Lemma sstep_ok w st o : sstate_ok st -> sstate_ok (fst (sstep w st o)) /\ snd (sstep w st o) <> Dangling.
+Proof.
+  intros K. pose proof K as [K1 K2].
+  destruct o as [l | f | m | n v | | k]; cbn [sstep].
+  - unfold s_core. destruct (run_script dict_add _ l) as [[[d' r'] a'] oc] eqn:E.
+    destruct (script_ok _ _ _ _ _ _ _ _ K1 E) as (H & L & N). cbn [fst snd]. split; [now apply with_ok | exact N].
+  - destruct (lookup f (w_files w)) as [l |]; [| split; [exact K | discriminate]].
+    destruct (mem f (e_used (s_env st))); [split; [exact K | discriminate] |].
+    unfold s_core.
+    destruct (run_script dict_add _ (map (regen (next_gen (s_amb st))) l)) as [[[d' r'] a'] oc] eqn:E.
+    assert (K1' : oids_ok (List.length (a_objs (log_eval f (s_amb st)))) (e_rest (s_env st))) by exact K1.
+    destruct (script_ok _ _ _ _ _ _ _ _ K1' E) as (H & L & N).
+    destruct (is_ok oc) eqn:OK; cbn [fst snd]; (split; [apply with_ok; auto | (discriminate || exact N)]).
+  - destruct (lookup m (w_mods w)) as [mc |]; [| split; [exact K | discriminate]].
+    destruct (mem m (e_mods (s_env st))); [split; [exact K | discriminate] |].
+    unfold s_core. destruct (run_module dict_add _ (mod_ops mc)) as [[d' r'] a'] eqn:E.
+    destruct (module_ok _ _ _ _ _ _ _ K1 E) as (H & L). cbn [fst snd]. split; [now apply with_ok | discriminate].
+  - cbn [fst snd]. split; [exact K | discriminate].
+  - cbn [fst snd]. split; [| discriminate]. split; cbn; [exact K1 |]. apply Forall_app. split; [exact K2 | constructor; [exact K1 | constructor]].
+  - destruct (nth_error (s_snaps st) k) as [e' |] eqn:N; cbn [fst snd]; [| split; [exact K | discriminate]].
+    split; [| discriminate]. split; cbn; [| exact K2]. rewrite Forall_forall in K2. apply K2. eapply nth_error_In; eauto.
+Qed.
+
+Lemma srun_ok w h : forall st, sstate_ok st -> sstate_ok (srun w st h).
+Proof. induction h as [| o h IH]; intros st K; cbn [srun]; [exact K |]. apply IH. now apply sstep_ok. Qed.
+
+Lemma s_init_ok : sstate_ok s_init.
+Proof. split; cbn; constructor. Qed.
+
+Theorem no_dangling_thm d (OK : desc_ok d = true) w h o : moutcome d w (mrun d w m_init h) o <> Dangling.
+Proof.
+  pose proof (desc_ok_facts d OK) as F.
+  rewrite (moutcome_sim d F w _ o) by apply (mrun_sim d F w h m_init inv_init).
+  destruct (mrun_sim d F w h m_init inv_init) as [_ A]. rewrite A.
+  apply sstep_ok. apply srun_ok. exact s_init_ok.
+Qed.
